@@ -73,7 +73,9 @@ def parse_summary(content):
 
 
 def categorize_filenames(mapping):
-    filenames = list(mapping.values())
+    # the roles follow the numbering of the `ProductFileNameNN` keys, not the
+    # order in which the lines happen to appear in the summary
+    filenames = [filename for _, filename in sorted(mapping.items())]
     volume_directory, leader, *imagery, trailer = filenames
     return {
         "volume_directory": volume_directory,
